@@ -130,6 +130,23 @@ def main():
                 print("    " + info.replace("\n", "\n    "))
             if status != "ok":
                 bad += 1
+    if not args.props and not args.k:
+        # on the unchanged tree no rule instance may be "not decided"
+        import json
+        for i in range(1, 21):
+            prop = f"C{i:02d}"
+            d = tempfile.mkdtemp(prefix="psutil-selftest-ev-")
+            try:
+                p = subprocess.run([os.path.join(VERIF, "check"), prop], capture_output=True,
+                                   text=True, env=dict(os.environ, VERIF_SELFTEST="1",
+                                                       VERIF_EVIDENCE_DIR=d))
+                ev = json.load(open(os.path.join(d, f"{prop}.json")))
+                u = ev["coverage"].get("undecided_instances", 0)
+                if p.returncode != 0 or u:
+                    bad += 1
+                    print(f"[CLEAN-TREE] {prop} exit={p.returncode} undecided_instances={u}")
+            finally:
+                shutil.rmtree(d, ignore_errors=True)
     print(f"selftest: {len(vs)} variants, {bad} not as expected")
     return 1 if bad else 0
 
